@@ -3,6 +3,7 @@ import TallyVerif.Driver.Classify
 import TallyVerif.Driver.Analyze
 import TallyVerif.Driver.Rules
 import TallyVerif.Driver.Expr
+import TallyVerif.Driver.Engine
 import TallyVerif.Driver.Report
 import TallyVerif.Driver.RulesFile
 import TallyVerif.Driver.Fmt
@@ -18,6 +19,7 @@ def dispatch (j : Json) : Json :=
   | "legacy" => handleLegacy j
   | "transforms" => handleTransforms j
   | "eval" => handleEval j
+  | "engine" => handleEngine j
   | "report" => handleReport j
   | "rulesfile" => handleRulesFile j
   | "viewsfile" => handleViewsFile j
